@@ -12,6 +12,7 @@ import (
 
 var errOnTracks = errors.New("simulated OnTracks failure")
 
+// the pending-request check of blackholed requests: a request that is never answered must not keep the client alive after Close
 func c12Origin(r *Run) *stubOrigin {
 	g := &originGen{containers: []string{"ts", "fmp4"}, modes: []string{"vod", "live", "event"}, minSegs: 3, maxSegs: 8,
 		renditions: true, byteRanges: true, segDurMs: []int{500, 1000, 2000}, multiFrag: false, noPDTChance: 3}
@@ -100,7 +101,7 @@ func scC12Fault(r *Run) {
 	o := c12Origin(r)
 	lat := Pick(T, 0, 10, 100)
 	pos := r.SweepPos % 40
-	kind := []string{"status", "transport", "stall", "ontracks"}[(r.SweepPos/40)%4]
+	kind := []string{"status", "transport", "stall", "ontracks", "blackhole"}[(r.SweepPos/40)%5]
 	status := Pick(T, 404, 500, 503, 403)
 	if kind == "ontracks" && pos > 0 {
 		return // the OnTracks fault has one position only
@@ -127,7 +128,7 @@ func scC12Fault(r *Run) {
 	closed := false
 	w.onEvent = func(ev int) {
 		// a stalled body never ends by itself: the user closes the client some time later
-		if fired == "stall" && !closed && !w.waitSeen && r.Now() >= firedAt+closeDelay {
+		if (fired == "stall" || fired == "blackhole") && !closed && !w.waitSeen && r.Now() >= firedAt+closeDelay {
 			closed = true
 			r.Tracef("close after stall")
 			w.closeClient()
@@ -135,7 +136,7 @@ func scC12Fault(r *Run) {
 	}
 	r.Tracef("origin container=%s mode=%s streams=%d fault=%s@%d lat=%d", o.streams[0].container, o.streams[0].mode, len(o.streams), kind, pos, lat)
 	// the stall needs the scheduler to wake up for the Close
-	if kind == "stall" {
+	if kind == "stall" || kind == "blackhole" {
 		w.net.schedule(0, "custom", nil, func() {})
 		for t := time.Second; t < w.limit; t += time.Second {
 			w.net.schedule(t, "custom", nil, func() {})
@@ -227,7 +228,7 @@ func scC12Close(r *Run) {
 
 func init() {
 	register(&PropDef{ID: "C12", Quick: 3200, Thorough: 64000, Profiles: []ProfileDef{
-		{Name: "fault-sweep", Share: 1, Sc: scC12Fault, Sweep: 160},
+		{Name: "fault-sweep", Share: 1, Sc: scC12Fault, Sweep: 200},
 		{Name: "close-sweep", Share: 1, Sc: scC12Close, Sweep: 200},
 	}})
 }
